@@ -1086,7 +1086,9 @@ class UDFTimestamp:
 
         local = time.localtime(date_seconds)
 
-        self.tz = utils.gmtoffset_from_tm(date_seconds, local)
+        # gmtoffset_from_tm() returns the offset in 15 minute intervals (as
+        # ISO9660 wants it); a UDF timestamp records it in minutes.
+        self.tz = utils.gmtoffset_from_tm(date_seconds, local) * 15
         # FIXME: for the timetype, 0 is UTC, 1 is local, 2 is 'agreement'.
         # let the user set this.
         self.timetype = 1
